@@ -90,6 +90,8 @@ def make_struct(I):
             raise Unsupported("struct.pack with %d values" % len(vals))
         v = vals[0]
         if c == "s":
+            if isinstance(v, (bytes, bytearray)) and isinstance(n, int):
+                v = bytes(v[:n]).ljust(n, b"\x00")  # 'Ns': truncated or null-padded to exactly N bytes
             return BytesVal([Part("s", v, n)])
         return BytesVal([Part(c, v, SIZES[c])])
 
